@@ -31,6 +31,8 @@ def replay_redirect(ctx):
         hs = [h for h in asmkern.dir_harnesses(ctx.build, ks, [m.group(1)]) if h.round == int(m.group(2))]
         if not hs or hs[0].error: raise vlib.BuildError("cannot build the directory harness %s: %s" % (m.group(1), hs[0].error if hs else "no such directory"))
         ctx.harness = hs[0].exe; log("replay through the kernels of mpn/x86_64/%s" % m.group(1))
+        ma = re.search(r"^# align: (\S+)", txt, re.M)
+        ctx.mod_env = dict(ctx.mod_env or {}, C14_ALIGN=ma.group(1) if ma else "0")
     m = re.search(r"^# rebuild: table=(\S+)\n# rebuild-cflags: (.*)\n# rebuild-configure: (.*)$", txt, re.M)
     if m:
         import atexit
@@ -351,24 +353,24 @@ def replay_path(pid):
     os.makedirs(os.path.join(vlib.VERIF, "replay"), exist_ok=True)
     return os.path.join(vlib.VERIF, "replay", "%s-%d.ops" % (pid, n))
 
-def write_kernel_replay(ctx, h, ks, line, impl, model, note=""):
+def write_kernel_replay(ctx, h, ks, line, impl, model, note="", align="0"):
     p = replay_path(ctx.pid)
     with open(p, "w") as f:
         f.write("# property %s  seed %d  tier %s  stage asm-kernel\n" % (ctx.pid, ctx.seed, ctx.tier))
         for k in ks: f.write("# kernel: %s  (functions %s, symbols prefixed %s)\n" % (k.path, ",".join(k.funcs), k.prefix))
-        f.write("# directory-harness: %s round %d\n" % (h.dir, h.round))
+        f.write("# directory-harness: %s round %d\n# align: %s   (environment C14_ALIGN of the kernel harness: allocation alignment 0 / 8 / alt)\n" % (h.dir, h.round, align))
         f.write("# op: %s\n# kernel output: %s\n# model/spec:    %s\n" % (line[:2000], impl[:2000], model[:2000]))
         if note: f.write("".join("# " + l + "\n" for l in note.split("\n")[:40]))
         f.write("# rerun: python3 tools/props/c14_asm.py --replay %s\n" % os.path.relpath(p, vlib.VERIF))
         f.write(line + "\n")
     return p
 
-def run_dir(ctx, h, lines):
+def run_dir(ctx, h, lines, align="0"):
     """-> (n evaluated, list of (kernels, line, impl, model, note))  — continues past a crashing kernel"""
     bad = []; done = 0; lines = list(lines); rounds = 0
     while lines and rounds < 8:
         rounds += 1
-        rc, impl, err = vlib.run_stream(h.exe, lines, timeout=3600)
+        rc, impl, err = vlib.run_stream(h.exe, lines, timeout=3600, env={"C14_ALIGN": align})
         crashed = rc != 0 or len(impl) != len(lines)
         ok_n = min(len(impl), len(lines))
         if ok_n:
@@ -406,6 +408,7 @@ def kernel_stage(ctx, cov):
     kc["skipped_isa"] = [{"kernel": k.path, "needs": k.missing} for k in ks if k.assembled and k.missing]
     kc["unclassified_mnemonics"] = {k.path: k.isa_unknown for k in ks if k.isa_unknown}
     kc["host_isa_used"] = sorted(set(f for k in ks for f in k.isa))
+    kc["simd_kernels_rerun_with_misaligned_operands"] = sorted(k.path for k in ks if k.simd)
     kc["pinned_build_kernels"] = [k.path for k in asmkern.default_build_kernels(ctx.build, ks)]
     out = []
     for k in ks:
@@ -433,6 +436,13 @@ def kernel_stage(ctx, cov):
         lines = [ln for op in sorted(h.opmap) for ln in by_op.get(op, [])]
         td = time.time()
         n, bad = run_dir(ctx, h, lines) if lines else (0, [])
+        bad = [b + ("0",) for b in bad]
+        # operand alignment: the kernels that touch SSE/AVX registers again with every allocation at 8 mod 16 / mixed
+        simd_ops = sorted(op for op, kk in h.opmap.items() if any(k.simd for k in kk))
+        al = [ln for op in simd_ops for ln in by_op.get(op, [])]
+        for mode in (("alt",) if ctx.tier == "quick" else ("8", "alt")):
+            if al:
+                n2, bad2 = run_dir(ctx, h, al, mode); n += n2; bad += [b + (mode,) for b in bad2]
         return h, lines, n, bad, time.time() - td
     todo = [h for h in hs if h.dir in dirs]; opt = [h for h in hs if h.dir in optional]
     results = []
@@ -452,11 +462,11 @@ def kernel_stage(ctx, cov):
             ops = [op for op in h.ops_of(k) if cnt.get(op)]
             if ops: tested[k.path] = {"ops": ops, "lines": sum(cnt[o] for o in ops)}
         seen = set()
-        for kk, ln, a, b, note in sorted(bad, key=lambda t: len(t[1])):      # shortest failing line per (kernel, op)
+        for kk, ln, a, b, note, mode in sorted(bad, key=lambda t: len(t[1])):      # shortest failing line per (kernel, op)
             key = tuple(k.path for k in kk) + (ln.split(" ", 1)[0],)
             if key in seen: continue
             seen.add(key)
-            p = write_kernel_replay(ctx, h, kk, ln, a, b, note)
+            p = write_kernel_replay(ctx, h, kk, ln, a, b, note, mode)
             names = ", ".join(k.path for k in kk) or ("directory " + h.dir)
             log("KERNEL DISAGREEMENT %s: %s\n  kernel: %s\n  model : %s" % (names, ln[:200], a[:200], b[:200]))
             print("DISAGREE kernel %s: %s\n  kernel: %s\n  model : %s" % (names, ln[:300], a[:300], b[:300]))
@@ -663,7 +673,8 @@ def main():
     ks = asmkern.load(ctx.build)
     hs = [h for h in asmkern.dir_harnesses(ctx.build, ks, [m.group(1)]) if h.round == int(m.group(2))]
     if not hs or hs[0].error: print("cannot build the directory harness: %s" % (hs[0].error if hs else "no such directory")); sys.exit(2)
-    n, bad = run_dir(ctx, hs[0], lines)
+    ma = re.search(r"^# align: (\S+)", txt, re.M)
+    n, bad = run_dir(ctx, hs[0], lines, ma.group(1) if ma else "0")
     for kk, ln, x, y, note in bad:
         print("DISAGREE kernel %s: %s\n  kernel: %s\n  model : %s" % (", ".join(k.path for k in kk), ln[:300], x[:300], y[:300]))
     if bad: print("VIOLATION property=C14 replay=%s" % a.replay); sys.exit(1)
